@@ -8,29 +8,29 @@ ALLOWED_DECODE_ERRORS = {
 }
 
 
-def two_level(qualname, prefix, item, closure_env=None, throttle=False):
+def two_level(qualname, prefix, item, closure_env=None, sig=None, h="4", requires=(), search=None):
     d = dict(
-        sig="(data: bytes) -> List[%s]" % item,
+        sig=sig or "(data: bytes) -> List[%s]" % item, requires=list(requires), search=search or {"data": "resp:" + prefix},
         kind="generator", item=item, props=["C05", "C12"],
-        ensures={"func[C05]": "result == %s_items(data)" % prefix,
+        ensures={"func[C05]": "result == {p}_items_outer(data, {h}, {p}_topics_cnt(data, {h}))".format(p=prefix, h=h),
                  },
         raises=dict(ALLOWED_DECODE_ERRORS),
         loops={
             "for#1": dict(index="i", decreases="len(data) - cur", inv=[
-                "cur == {p}_topics_pos(data, 4, i)".format(p=prefix),
-                "yielded == {p}_items_outer(data, 4, i)".format(p=prefix),
-                "num_topics == {p}_topics_cnt(data, 4)".format(p=prefix),
-                "4 <= cur and cur <= len(data)"]),
+                "cur == {p}_topics_pos(data, {h}, i)".format(p=prefix, h=h),
+                "yielded == {p}_items_outer(data, {h}, i)".format(p=prefix, h=h),
+                "num_topics == {p}_topics_cnt(data, {h})".format(p=prefix, h=h),
+                "4 <= cur and cur <= len(data)".format()]),
             "for#1/for#1": dict(index="j", decreases="len(data) - cur", inv=[
-                "cur == {p}_parts_pos(data, {p}_topics_e_pos_partitions(data, {p}_topics_pos(data, 4, i)), j)".format(p=prefix),
-                "yielded == {p}_items_outer(data, 4, i) + {p}_items_inner(data, {p}_topics_pos(data, 4, i), "
-                "{p}_topics_e_pos_partitions(data, {p}_topics_pos(data, 4, i)), j)".format(p=prefix),
-                "num_partitions == {p}_parts_cnt(data, {p}_topics_e_pos_partitions(data, {p}_topics_pos(data, 4, i)))".format(p=prefix),
-                "topic == {p}_topics_e_topic(data, {p}_topics_pos(data, 4, i))".format(p=prefix),
+                "cur == {p}_parts_pos(data, {p}_topics_e_pos_partitions(data, {p}_topics_pos(data, {h}, i)), j)".format(p=prefix, h=h),
+                "yielded == {p}_items_outer(data, {h}, i) + {p}_items_inner(data, {p}_topics_pos(data, {h}, i), "
+                "{p}_topics_e_pos_partitions(data, {p}_topics_pos(data, {h}, i)), j)".format(p=prefix, h=h),
+                "num_partitions == {p}_parts_cnt(data, {p}_topics_e_pos_partitions(data, {p}_topics_pos(data, {h}, i)))".format(p=prefix, h=h),
+                "topic == {p}_topics_e_topic(data, {p}_topics_pos(data, {h}, i))".format(p=prefix, h=h),
                 "i < num_topics",
                 "pre(cur) <= cur",
-                "num_topics == {p}_topics_cnt(data, 4)".format(p=prefix),
-                "4 <= cur and cur <= len(data)"]),
+                "num_topics == {p}_topics_cnt(data, {h})".format(p=prefix, h=h),
+                "4 <= cur and cur <= len(data)".format()]),
         })
     if closure_env:
         d['closure_env'] = closure_env
@@ -41,3 +41,7 @@ two_level("afkak.kafkacodec.KafkaCodec.decode_offset_commit_response", "ocr", "O
 two_level("afkak.kafkacodec.KafkaCodec.decode_offset_fetch_response", "ofr", "OffsetFetchResponse")
 two_level("afkak.kafkacodec.KafkaCodec.decode_produce_response.<v0>", "prv0", "ProduceResponse")
 two_level("afkak.kafkacodec.KafkaCodec.decode_produce_response.<v2>", "prv2", "ProduceResponse")
+
+two_level("afkak.kafkacodec.KafkaCodec.decode_fetch_response", "fr", "FetchResponse",
+          sig="(data: bytes, api_version: int = 0) -> List[FetchResponse]", h="ite(api_version == 0, 4, 8)",
+          requires=["api_version == 0 or api_version >= 2"], search={"data": "resp:fr", "api_version": "choice:[0]"})
